@@ -14,7 +14,9 @@ import (
 // (both objects wired to the real Transport's packetHandlerMap inside a synctest bubble;
 // part transport-paths: a client-side connection registered on two real Transports)
 // and c16_coal_test.go (coalesced packets with differing DCIDs fed through the real
-// Transport into a real Conn).
+// Transport into a real Conn). Own targets: e3/ (lock points of the outgoing path manager)
+// and e2/ (whole connections: lifetime of the client's original Destination Connection ID
+// in the server's routing table).
 func TestVerifC16(t *testing.T) {
 	explore.Main("C16", []explore.Part{
 		c16MgrPart("mgr", c16MgrCfg{}),
